@@ -58,8 +58,12 @@ def rule_progress(ctx: Ctx):
     sn = f.self_name
     cfg = CFG(f.node)
     # working copy
-    cps = [s for s in walk_no_nested(f.node) if isinstance(s, ast.Assign) and norm(s.value) == f"{sn}.copy()"]
-    ctx.require(len(cps) == 1, "R-C10-2", "working copy `copy = self.copy()` not found")
+    fl0 = p.flow(f)
+    cps = [s for s in walk_no_nested(f.node) if isinstance(s, ast.Assign) and isinstance(s.targets[0], ast.Name) and
+           (norm(s.value) == f"{sn}.copy()" or
+            (isinstance(s.value, ast.Call) and norm(s.value.func) in (f"{sn}.merge", "deepcopy", "copy.deepcopy") and sn in {x.id for x in ast.walk(s.value) if isinstance(x, ast.Name)}
+             and fl0.vals_at(s.value) and all(v.kind == "fresh" for v in fl0.vals_at(s.value))))]
+    ctx.require(len(cps) == 1, "R-C10-2", "working copy (`copy = self.copy()` or another freshly allocated copy of self) not found")
     cp = norm(cps[0].targets[0])
     ctx.check(len(stores_to(f.node, cp)) == 1, "R-C10-2", f, cps[0], "the fast alignment consumes a private copy of the continuum (never rebound)", key="copy")
     loops = [w for w in walk_no_nested(f.node) if isinstance(w, ast.While) and norm(w.test) == cp]
